@@ -12,6 +12,7 @@ Decided statically (necessary conditions, for every graph function):
 """
 
 import ast
+import re
 import json
 import os
 
@@ -692,6 +693,42 @@ def rule_opt(ctx):
                     removed.append(norm(node.value.args[0]))
             ctx.ob('C01.opt', key + ':single-use', bool(removed) and all(r in single for r in removed),
                    f'removes {removed} but single-use was established only for {sorted(single)}', cr, mod)
+            # the removed unit is not read by the replacement: neither by name nor through the other operand when both
+            # operands may be the same unit (established: `a is b` tested false, or a failed test on the other operand whose
+            # conjuncts all hold for the removed one)
+            true_srcs, false_tests, not_same = set(), [], False
+            for k, node, x in ev[:idx]:
+                if k != 'test':
+                    continue
+                if x:
+                    true_srcs.update(norm(c) for c in U.conjuncts(node))
+                else:
+                    false_tests.append([norm(c) for c in U.conjuncts(node)])
+                    if norm(node) in (f'{A} is {B}', f'{B} is {A}'):
+                        not_same = True
+            bare = set()
+            class _B(ast.NodeVisitor):
+                def visit_Attribute(self, n_):
+                    if isinstance(n_.value, ast.Name) and n_.value.id in (A, B):
+                        return
+                    self.generic_visit(n_)
+                def visit_Name(self, n_):
+                    if n_.id in (A, B):
+                        bare.add(n_.id)
+            _B().visit(cr.value)
+            bad = []
+            for r in removed:
+                if r in bare:
+                    bad.append(f'{r} is removed and still an input of the replacement')
+                for w in bare - {r}:
+                    if same:
+                        bad.append(f'{w} is {r} on this path, {r} is removed and {w} is an input of the replacement')
+                        continue
+                    contra = any(ft and all(re.sub(rf'\b{w}\b', r, c) in true_srcs and re.sub(rf'\b{w}\b', r, c) != c for c in ft)
+                                 for ft in false_tests)
+                    if not (not_same or contra):
+                        bad.append(f'{w} may be the removed unit {r} ({A} is {B} is never excluded on this path)')
+            ctx.ob('C01.opt', key + ':removed-not-read', not bad, '; '.join(bad) or 'the removed unit is not an input of the replacement', cr, mod)
             after = [norm(n_) for k, n_, x in ev[idx + 1:] if k == 'stmt']
             ok_desc = 'replacement._descendants = self._descendants' in after
             ok_upd = any(a.startswith('self._optimize_update_descendants(replacement, ') and
@@ -703,6 +740,26 @@ def rule_opt(ctx):
             ctx.ob('C01.opt', key + ':installed', installed,
                    'replacement must be returned to _optimize_add or installed with _replace_ugen', cr, mod)
     ctx.require(nrew >= 10, 'C01.opt', f'only {nrew} rewrite paths found')
+    # a unit is removed only on a path that goes on to build the replacement
+    for name in sorted(opctx):
+        f = ci.methods[name]
+        if 'self._synthdef._remove_ugen(' not in full(f.node):
+            continue
+        orphan = None
+        for ev, out in enumerate_paths(f.node):
+            seen_rm = None
+            for k, node, x in ev:
+                if k == 'stmt' and isinstance(node, ast.Expr) and isinstance(node.value, ast.Call) and \
+                        norm(node.value.func) == 'self._synthdef._remove_ugen':
+                    seen_rm = node
+                elif k == 'stmt' and isinstance(node, ast.Assign) and norm(node.targets[0]) == 'replacement':
+                    seen_rm = None
+            if seen_rm is not None and out[0] != 'raise':
+                orphan = seen_rm
+                break
+        ctx.ob('C01.opt', f'{mod.name}:BinaryOpUGen.{name}:removal-only-on-rewrite', orphan is None,
+               f'`{norm(orphan) if orphan is not None else ""}` is reached on a path that builds no replacement: the unit disappears while self '
+               f'still reads it, and self and everything downstream are dropped by the topological sort', orphan or f.node, mod)
     # _optimize_add installs what helpers return
     f = ci.methods['_optimize_add']
     src = full(f.node)
@@ -880,6 +937,13 @@ def run(ctx):
 
 
 MUTANTS = [
+    dict(rule='C01.opt', name='_optimize_sub rewrites n - n (fix reverted)', file='sc3/synth/ugen.py',
+         old="    def _optimize_sub(self):\n        a, b = self.inputs\n        if a is b:\n            return\n", new="    def _optimize_sub(self):\n        a, b = self.inputs\n"),
+    dict(rule='C01.opt', name='muladd removes the product before knowing whether it can fuse', file='sc3/synth/ugen.py',
+         old="        and len(a._descendants) == 1:\n\n            if MulAdd._can_be_muladd(a.inputs[0], a.inputs[1], b):\n                self._synthdef._remove_ugen(a)\n",
+         new="        and len(a._descendants) == 1:\n            self._synthdef._remove_ugen(a)\n\n            if MulAdd._can_be_muladd(a.inputs[0], a.inputs[1], b):\n"),
+    dict(rule='C01.opt', name='sum4 without the a is b guard', file='sc3/synth/ugen.py',
+         old="        if a is b:  # Non optimizable edge case.\n            return None\n", new=""),
     dict(rule='C01.rate', name='MulAdd._init_ugen override removed (seed C03-d)', file='sc3/synth/ugen.py',
          old="    def _init_ugen(self, input, mul, add):  # override\n        self._inputs = (input, mul, add)\n        self._rate = gpp.ugen_param(self.inputs)._as_ugen_rate()\n        return self  # Must return self.\n\n", new=""),
     dict(rule='C01.dce', name='(fix reverted) DCE removes the edge with set.remove per input slot', file='sc3/synth/ugen.py',
